@@ -226,9 +226,10 @@ impl Sys {
     fn executor_entries(&mut self, op: &Value, ctxs: &[String]) -> Vec<SorobanAuthorizationEntry> {
         let mut out = vec![];
         let metas = op["metas"].as_array().expect("metas").clone();
+        let xskip = n(op, "xskip") as usize;
         for who in strs(op, "xauth") {
-            for (k, m) in ctxs.iter().zip(metas.iter()) {
-                if k == "create" {
+            for (idx, (k, m)) in ctxs.iter().zip(metas.iter()).enumerate() {
+                if k == "create" || idx + 1 == xskip {
                     continue;
                 }
                 let (t, f, a) = self.call(k);
@@ -423,13 +424,13 @@ fn reset_event(sys: &Sys, execs: &[String], min0: u32) -> Value {
         optab.insert(name.to_string(), json!({"call": call, "pred": pred, "salt": salt}));
     }
     json!({"op": {"op": "reset", "id": "none", "call": "none", "who": "none", "auth": false, "delay": 0, "entry": false,
-                  "metas": [], "sub": "none", "ctxs": [], "xauth": [], "dt": 0, "execs": execs, "min0": min0, "selfprop": sys.selfprop},
+                  "metas": [], "sub": "none", "ctxs": [], "xauth": [], "xskip": 0, "dt": 0, "execs": execs, "min0": min0, "selfprop": sys.selfprop},
            "optab": Value::Object(optab), "deny": ["n"], "now": NOW0, "res": "ok", "err": 0, "obs": sys.obs()})
 }
 
 fn blank(kind: &str, x0: &[String], m0: u32, dt: i64) -> Value {
     json!({"op": kind, "id": "none", "call": "none", "who": "none", "auth": false, "delay": 0, "entry": false,
-           "metas": [], "sub": "none", "ctxs": [], "xauth": [], "x0": x0, "m0": m0, "dt": dt})
+           "metas": [], "sub": "none", "ctxs": [], "xauth": [], "xskip": 0, "x0": x0, "m0": m0, "dt": dt})
 }
 
 fn main() {
@@ -578,6 +579,17 @@ fn main() {
                                     _ => {}
                                 }
                                 op["ctxs"] = json!(ctxs);
+                                // two different ready operations in one payload, the executor's entry complete or
+                                // missing for one of the two pairs
+                                if ready.len() >= 2 && r.gen_bool(0.5) {
+                                    let (a, b) = (ready[0], ready[ready.len() - 1]);
+                                    let d = |x: &str| { let o = *OPTAB.iter().find(|o| o.0 == x).unwrap(); (o.1, json!({"pred": o.2, "salt": o.3, "exec": ex})) };
+                                    let ((ca, ma), (cb, mb)) = (d(a), d(b));
+                                    op["ctxs"] = json!([ca, cb]);
+                                    op["metas"] = json!([ma, mb]);
+                                    op["xauth"] = json!(if ex == "none" { vec![] } else { vec![ex.clone()] });
+                                    op["xskip"] = json!(*pick(&mut r, &[0i64, 0, 2, 2, 1]));
+                                }
                             }
                         }
                     }
